@@ -141,7 +141,9 @@ Definition run_kind (rules : list string) (k : kind) (t : tx) : result :=
   verify (fun _ _ => ROk) (kind_names rules k) t.
 
 Record case := mk_case {
-  k_era : string; k_nred : N; k_inputs : list (option output); k_fee : Z; k_ret : option output;
+  k_era : string;
+  k_tags : list N;   (* purposes (RedeemerTag) of the redeemers of the decoded witness set, one entry per redeemer *)
+  k_inputs : list (option output); k_fee : Z; k_ret : option output;
   k_pct : Z; k_max : Z;
   k_obs : list result;     (* per clause, rule function(s) called directly *)
   k_obs2 : list result }.  (* per clause, through common.VerifyTransaction over the whole era list *)
@@ -150,6 +152,9 @@ Record case := mk_case {
 Definition kind_table_def : list (string * list (kind * list string)) :=
   map (fun era => (era, map (fun k => (k, match rules_of era with Some rs => kind_names rs k | None => [] end)) kinds)) eras4.
 Definition kind_table : list (string * list (kind * list string)) := Eval vm_compute in kind_table_def.
+(* "runs scripts": the rules count the redeemers, whatever their purposes *)
+Definition nred_of_tags (tags : list N) : N := N.of_nat (length tags).
+Definition k_nred (c : case) : N := nred_of_tags (k_tags c).
 Definition check_case (c : case) : bool :=
   match assoc (k_era c) kind_table with
   | None => false
